@@ -529,6 +529,24 @@ def ro_program(rng, pid, cfg, cs, n_ops, end_setup="unmount", poke=None, end="un
     return {"id": pid, "cfg": cfg, "ops": ops, "origin": "random:ro"}
 
 
+def ro_full_program(rng, pid):
+    """a FAT32 volume is filled until no cluster (or exactly one) is free and unmounted, so that its information sector holds the valid
+    count 0 (or 1); then a session of non-mutating calls with statistics queries: nothing may be written (C13)"""
+    vol, cs = nearly_full_volume(rng, 32)
+    vol["fsinfo"] = {"free": "exact", "next": rng.choice(["unknown", 2])}
+    ops = [{"op": "create_file", "at": "", "path": "fill.bin", "as": "f"}, {"op": "write_all", "h": "f", "pat": 3, "len": 40 * cs}, {"op": "close", "h": "f"}]
+    one = rng.random() < 0.5
+    if one:      # give one cluster back: the seed file has two (600 bytes)
+        ops += [{"op": "open_file", "at": "", "path": "SEED.TXT", "as": "s"}, {"op": "seek", "h": "s", "from": "start", "off": 100}, {"op": "truncate", "h": "s"}, {"op": "close", "h": "s"}]
+    ops += [{"op": "stats"}, {"op": "unmount"}]
+    if rng.random() < 0.6:
+        ops.append({"op": "clock", "t": [2022, 2, 3, 8, 0, 2, 0]})
+    for _ in range(rng.randrange(1, 3)):
+        ops += rng.sample([{"op": "stats"}, {"op": "list", "at": "", "path": ""}, {"op": "status"}, {"op": "info"}, {"op": "stats"}], 3)
+        ops.append({"op": rng.choice(["unmount", "dropfs"])})
+    return {"id": pid, "cfg": {"vol": vol}, "ops": ops, "origin": "ro:full:%d" % (1 if one else 0)}
+
+
 def fault_program(pid, cfg, cs):
     """one representative history touching every operation kind (C09): every device call of every
     operation is failed once by the `faults` driver"""
@@ -1006,6 +1024,36 @@ def colliding_names(rng, n, prefix="ab", ext="txt"):
             return max(buckets.values(), key=len)
 
 
+def names_with_hash(rng, n, target, prefix="wr", ext="txt"):
+    """n long names sharing the first six characters and the extension whose 16-bit name hash is exactly `target` (the last two characters of
+    the stem are solved for): with 13 + 9k of them the alias generator steps from hash target to target + k; target 0xFFFF makes it wrap"""
+    def ror(x):
+        return ((x >> 1) | ((x & 1) << 15)) & 0xFFFF
+
+    def rol(x):
+        return ((x << 1) | (x >> 15)) & 0xFFFF
+    # state needed before "." + ext
+    need = target
+    for ch in reversed("." + ext):
+        need = rol((need - ord(ch)) & 0xFFFF)
+    alpha = "abcdefghijklmnopqrstuvwxyz0123456789"
+    out = set()
+    tries = 0
+    while len(out) < n and tries < 2000000:
+        tries += 1
+        stem = "%sapar%s" % (prefix, "".join(rng.choice(alpha) for _ in range(rng.randrange(8, 14))))      # (short names cannot reach the top values)
+        s0 = bsd16(stem)
+        for a in alpha:
+            t = ror((ror(s0) + ord(a)) & 0xFFFF)
+            b = (need - t) & 0xFFFF
+            if b < 128 and chr(b) in alpha:
+                nm = "%s%s%s.%s" % (stem, a, chr(b), ext)
+                assert bsd16(nm) == target
+                out.add(nm)
+                break
+    return sorted(out)[:n]
+
+
 def alias_program(rng, pid, cfg, names, removals=0.15, every=1):
     ops = [{"op": "create_dir", "at": "", "path": "d", "as": "D"}]
     live = []
@@ -1471,6 +1519,9 @@ def large_volume(kind, hint, rng):
     vol = {"kind": "builder", "ft": 32, "bps": bps, "spc": spc, "n": n, "nfats": rng.choice([1, 2]), "rsvd": 32, "cell": cs // 2,
            "tree": [{"kind": "f", "name": "first.bin", "sfn": "FIRST   BIN", "size": cs + cs // 2, "pat": 3},
                     {"kind": "d", "name": "dir", "sfn": "DIR        ", "children": []}]}
+    if spc > 1 and rng.random() < 0.6:
+        # the data area does not end on a cluster boundary: the sectors left over belong to no cluster
+        vol["slack_sectors"] = rng.choice([1, spc // 2, spc - 1])
     last = n + 1
     first_data_bytes = (32 + vol["nfats"] * (((n + 2) * 4 + bps - 1) // bps)) * bps
     marks = {"last": last, "before_last": last - 1, "past": last + 1, "unknown": "unknown",
@@ -1618,6 +1669,26 @@ def orphan_cases(rng, quick=True):
     return dirs
 
 
+def half_deleted_cases(quick=True):
+    """a complete long-name run of n slots of which the first k (or the last k, or one in the middle) carry the deleted mark 0xE5 while the
+    rest and the short entry are live (a removal / rename cut off after some slots, or another writer): 0xE5 read as an order byte is
+    "last flag + bit 5 + index 5", so runs of five (and 0x45-like lengths) matter; the run is broken, the short name must be returned"""
+    dirs = []
+    raw = [ord(c) for c in "TARGET  TXT"]
+    good = _chk(raw)
+    tail = [sfn_slot([ord(c) for c in "AFTER   BIN"], size=3)]
+    for n in (range(1, 9) if quick else range(1, 21)):
+        name = [ord("a") + (k % 26) for k in range(n * 13 - 2)]
+        run = lfn_run_slots(name, good)
+        for k in range(1, n + 1):
+            marks = [set(range(k)), set(range(n - k, n)), {k - 1}]
+            for m in marks:
+                sl = [([0xE5] + x[1:]) if i in m else x for i, x in enumerate(run)]
+                dirs.append(sl + [sfn_slot(raw)] + tail)
+                dirs.append([lfn_slot(0x41, good ^ 1, [0x7A] * 13)] + sl + [sfn_slot(raw)] + tail)
+    return dirs
+
+
 def single_slot_cases():
     """one long-name slot of every order / last-flag / checksum / deleted pattern, followed by a file, a directory, a label, a deleted
     entry or the end"""
@@ -1641,7 +1712,7 @@ def single_slot_cases():
 
 def dir_cases(rng, quick=True):
     """list of directories (lists of 32-byte slots)"""
-    dirs = orphan_cases(rng, quick) + single_slot_cases()
+    dirs = orphan_cases(rng, quick) + single_slot_cases() + half_deleted_cases(quick)
     raw = [ord(c) for c in "TARGET  TXT"]
     good = _chk(raw)
     tail = [sfn_slot([ord(c) for c in "AFTER   BIN"], size=3)]
@@ -1856,6 +1927,44 @@ def flush_fault_io_program(rng, pid, cfg, cs):
             {"op": "write_all", "h": "r", "pat": 4, "len": 3}, {"op": "seek", "h": "r", "from": "start", "off": 0}, {"op": "read_all", "h": "r", "len": 3 * cs + 20},
             {"op": "close", "h": "r"}, {"op": "unmount"}]
     return {"id": pid, "cfg": cfg, "ops": ops, "fault": {"at": at, "k": rng.randrange(1, 5), "continue": True}, "origin": "io:flush-fault"}
+
+
+def stamp_full_program(rng, pid, cfg, cs):
+    """stamping rules when a write fails: the volume is filled, the clock moves on, a write that needs a new cluster (an empty file, or
+    the end of a file whose size is a whole number of clusters) returns the out-of-space error and stores nothing: the modification stamp
+    on the medium must stay what it was (only a successful write is stamped)"""
+    ops = [{"op": "clock", "t": [2016, 3, 1, 8, 0, 0, 0]},
+           {"op": "create_file", "at": "", "path": "whole.bin", "as": "w"}, {"op": "write_all", "h": "w", "pat": 1, "len": rng.choice([cs, 2 * cs])}, {"op": "close", "h": "w"},
+           {"op": "create_file", "at": "", "path": "empty.bin", "as": "e"}, {"op": "close", "h": "e"},
+           {"op": "create_dir", "at": "", "path": "d"},
+           {"op": "clock", "t": [2016, 3, 2, 9, 0, 0, 0]},
+           {"op": "create_file", "at": "", "path": "fill.bin", "as": "f"}, {"op": "write_all", "h": "f", "pat": 2, "len": 300 * cs}, {"op": "close", "h": "f"},
+           {"op": "clock", "t": [2021, rng.randrange(1, 13), rng.randrange(1, 29), 17, 45, 20, 0]}]
+    for v in rng.sample(["whole.bin", "empty.bin"], 2):
+        ops += [{"op": "open_file", "at": "", "path": v, "as": "h"}, {"op": "seek", "h": "h", "from": "end", "off": 0},
+                {"op": rng.choice(["write", "write_all"]), "h": "h", "pat": 5, "len": rng.choice([1, cs + 1])},
+                {"op": rng.choice(["flush", "close"]), "h": "h"}, {"op": "close", "h": "h"}, {"op": "list", "at": "", "path": ""}]
+    ops += [{"op": "unmount"}, {"op": "list", "at": "", "path": ""}, {"op": "unmount"}]
+    return {"id": pid, "cfg": cfg, "ops": ops, "origin": "stamps:full"}
+
+
+def unmount_fault_program(rng, pid, cfg, cs):
+    """a session allocates and frees clusters; its unmount hits a storage error (one failing device call, or every call from some point
+    on: the medium went away), the error is reported; the volume is mounted again: whatever the failed unmount left behind, a mounter
+    must not be handed a volume marked clean whose stored free count is wrong (C05: the reported count always equals the table)"""
+    ops = [{"op": "stats"}] if rng.random() < 0.5 else []
+    for i in range(rng.randrange(1, 4)):
+        ops += [{"op": "create_file", "at": "", "path": "u%d.bin" % i, "as": "h%d" % i}, {"op": "write_all", "h": "h%d" % i, "pat": 10 + i, "len": rng.choice([1, cs, 2 * cs + 1, 5 * cs])},
+                {"op": "close", "h": "h%d" % i}]
+    if rng.random() < 0.4:
+        ops.append({"op": "remove", "at": "", "path": "u0.bin"})
+    if rng.random() < 0.3:
+        ops.append({"op": "stats"})
+    at = len(ops)
+    ops.append({"op": rng.choice(["unmount", "unmount", "dropfs"])})
+    ops += [{"op": "stats"}, {"op": "list", "at": "", "path": ""}, {"op": "create_file", "at": "", "path": "later.bin", "as": "l"}, {"op": "write_all", "h": "l", "pat": 3, "len": cs + 1},
+            {"op": "close", "h": "l"}, {"op": "stats"}, {"op": "unmount"}, {"op": "stats"}, {"op": "unmount"}]
+    return {"id": pid, "cfg": cfg, "ops": ops, "fault": {"at": at, "k": rng.randrange(1, 14), "sticky": rng.random() < 0.6, "continue": True}, "origin": "unmount-fault"}
 
 
 def with_remounts(prog, rng, k=2):
